@@ -10,6 +10,7 @@ import (
 	"runtime"
 	"sort"
 	"strings"
+	"sync/atomic"
 	"time"
 
 	"github.com/awalterschulze/gominikanren/concurrent"
@@ -49,6 +50,36 @@ type leakObs struct {
 func gfives(x *int) gomini.Goal {
 	five := 5
 	return gomini.DisjO(gomini.EqualO(x, &five), func(ctx context.Context, s *gomini.State, ss gomini.Stream) { gfives(x)(ctx, s, ss) })
+}
+
+// burstProgram: a finite disjunction of n branches, branch i answers q = "bi"; after answering, every branch waits until all
+// its siblings have answered and then all return at the same reading of the clock - so n finishing goroutines hand back
+// their permits at (almost) the same instant. A legal goal program: it only adds waiting.
+func burstProgram(n int) func(q *string) gomini.Goal {
+	var arrived atomic.Int32
+	gate := make(chan struct{})
+	var deadline time.Time // written once before close(gate), read only after <-gate
+	return func(q *string) gomini.Goal {
+		branches := make([]gomini.Goal, n)
+		for i := range branches {
+			answer := fmt.Sprintf("b%d", i)
+			branches[i] = func(ctx context.Context, s *gomini.State, ss gomini.Stream) {
+				gomini.EqualO(q, &answer)(ctx, s, ss)
+				if int(arrived.Add(1)) == n {
+					deadline = time.Now().Add(2 * time.Millisecond)
+					close(gate)
+				}
+				select {
+				case <-gate:
+				case <-ctx.Done():
+					return
+				}
+				for time.Now().Before(deadline) {
+				}
+			}
+		}
+		return gomini.DisjO(branches...)
+	}
 }
 
 func settle(base int, d time.Duration) int {
@@ -111,6 +142,46 @@ func observeLeak(c leakCase) *leakObs {
 			_ = g(st)
 		}
 		o.How = "returned"
+	case c.Kind == "limit-reuse" || c.Kind == "limit-burst":
+		// ONE limited context serves several searches in a row (with idle refill periods in between), each read to the end
+		ctx, cancel := context.WithCancel(context.Background())
+		rctx := gomini.SetMaxRoutines(ctx, c.Max)
+		o.How = "closed"
+	searches:
+		for k := 0; k < c.Calls; k++ {
+			var ch chan any
+			if c.Kind == "limit-burst" {
+				ch = gomini.Run(rctx, gomini.NewState(), burstProgram(c.N))
+			} else {
+				xs := make([]string, c.N)
+				for j := range xs {
+					xs[j] = fmt.Sprintf("e%d", j)
+				}
+				ch = gomini.Run(rctx, gomini.NewState(), func(q *concato.Node) gomini.Goal {
+					return gomini.ExistO(func(y *concato.Node) gomini.Goal { return concato.ConcatO(q, y, nodeList(xs)) })
+				})
+			}
+			timer := time.After(5 * time.Second)
+			for {
+				select {
+				case a, ok := <-ch:
+					if !ok {
+						time.Sleep(time.Duration(c.Variant) * time.Millisecond) // idle: the refill ticker runs with nothing to do
+						continue searches
+					}
+					switch v := a.(type) {
+					case *concato.Node:
+						o.Answers = append(o.Answers, fmt.Sprintf("search %d: %s", k, v.String()))
+					case *string:
+						o.Answers = append(o.Answers, fmt.Sprintf("search %d: %s", k, *v))
+					}
+				case <-timer:
+					o.How = fmt.Sprintf("timeout in search number %d on the same limited context (%d answers so far)", k+1, len(o.Answers))
+					break searches
+				}
+			}
+		}
+		cancel()
 	default:
 		for k := 0; k < c.Calls; k++ {
 			ctx, cancel := context.WithCancel(context.Background())
@@ -192,6 +263,12 @@ func genLeakCases(cfg *Config, prop string) []leakCase {
 				cases = append(cases, leakCase{Kind: "limit", N: n, Take: -1, Max: max, Calls: 1})
 			}
 		}
+		// the same limited context used for several searches, with idle refill periods in between
+		cases = append(cases, leakCase{Kind: "limit-reuse", N: 6, Take: -1, Max: 1, Calls: 3, Variant: 35},
+			leakCase{Kind: "limit-reuse", N: 4, Take: -1, Max: 2, Calls: 4, Variant: 25},
+			// sibling goroutines that finish at the same instant under a limit far below the depth
+			leakCase{Kind: "limit-burst", N: 8, Take: -1, Max: 1, Calls: 25},
+			leakCase{Kind: "limit-burst", N: 6, Take: -1, Max: 2, Calls: 25})
 	}
 	for len(cases) < cfg.N {
 		if prop == "C11" {
@@ -204,7 +281,14 @@ func genLeakCases(cfg *Config, prop string) []leakCase {
 				cases = append(cases, leakCase{Kind: "gomini-infinite", Take: r.Intn(6), Max: pick(r, []int{0, 0, 3, 8}), Calls: 1})
 			}
 		} else {
-			cases = append(cases, leakCase{Kind: "limit", N: 2 + r.Intn(5), Take: -1, Max: pick(r, []int{1, 1, 2, 2, 3, 4, 6, 50}), Calls: 1})
+			switch r.Intn(4) {
+			case 0:
+				cases = append(cases, leakCase{Kind: "limit-reuse", N: 2 + r.Intn(6), Take: -1, Max: pick(r, []int{1, 1, 2, 3}), Calls: 2 + r.Intn(3), Variant: 15 + r.Intn(40)})
+			case 1:
+				cases = append(cases, leakCase{Kind: "limit-burst", N: 4 + r.Intn(6), Take: -1, Max: pick(r, []int{1, 1, 2, 3}), Calls: 15 + r.Intn(15)})
+			default:
+				cases = append(cases, leakCase{Kind: "limit", N: 2 + r.Intn(5), Take: -1, Max: pick(r, []int{1, 1, 2, 2, 3, 4, 6, 50}), Calls: 1})
+			}
 		}
 	}
 	return cases[:cfg.N]
@@ -223,7 +307,7 @@ func runLeak(cfg *Config, prop string) *Report {
 	if prop == "C11" {
 		rep.Rule = "concurrent combinators called 10..50 times on argument lists mixing fail/succeed/alwayso/nevero (early-return paths); gomini searches (finite ConcatO splits, an infinite fives relation) cancelled after 0..k answers or read to the end, with and without SetMaxRoutines; goroutine count before / 400ms after / 150ms later, each case in its own process; non-trivial = the case has an early exit (a failing conjunct, or a cancel before the last answer); distinct by case parameters"
 	} else {
-		rep.Rule = "finite ConcatO split searches read to the end under SetMaxRoutines(max) for max in 1..100 (far below the search's goroutine depth), each case in its own process; compared with the unlimited run: terminates (bound 8s) with the same multiset of answers; non-trivial = max is smaller than the list length + 2; distinct by case parameters"
+		rep.Rule = "finite ConcatO split searches read to the end under SetMaxRoutines(max) for max in 1..100 (far below the search's goroutine depth), each case in its own process; one limited context reused for 2..4 searches with idle refill periods of 15..55ms in between; disjunctions of 4..9 sibling branches that finish at the same instant (rendezvous) under max in 1..3, 15..30 rounds; compared with the unlimited run: terminates (bound 8s) with the same multiset of answers; non-trivial = max is smaller than the list length + 2; distinct by case parameters"
 	}
 	iso := isolate(prop, cfg, len(cases), 1, 12*time.Second)
 	for i, c := range cases {
@@ -265,8 +349,14 @@ func runLeak(cfg *Config, prop string) *Report {
 			}
 		} else {
 			want := c.N + 1
+			switch c.Kind {
+			case "limit-reuse":
+				want = (c.N + 1) * c.Calls
+			case "limit-burst":
+				want = c.N * c.Calls
+			}
 			if o.How != "closed" {
-				rep.violate(i, "limit-changes-termination", desc, fmt.Sprintf("with max=%d the search did not finish within 8s (%s); the unlimited search has %d answers", c.Max, obs, want))
+				rep.violate(i, "limit-changes-termination", desc, fmt.Sprintf("with max=%d the search did not finish within its time bound (%s; %s); the unlimited search has %d answers", c.Max, o.How, obs, want))
 			} else if len(o.Answers) != want {
 				rep.violate(i, "limit-changes-answers", desc, fmt.Sprintf("with max=%d: %d answers, unlimited: %d", c.Max, len(o.Answers), want))
 			}
